@@ -377,6 +377,45 @@ def corr(ctx):
                     ok, cfg = False, {"arch": aname, "chain": cname, "H": H, "B": B, "error": "%s: %s" % (type(ex).__name__, str(ex)[:160])}
                 ops.append(Op("gray 0", "0", nontrivial=True, info={"site": "models:DeepJSCCModel.backward", "config": cfg}, prop_ok=ok))
                 ctx.count("end_to_end")
+    # ---------------- multi-user pipeline (DeepJSCC-NOMA, superposition path): the loss gradient reaches every device's encoder.
+    # Reference set: the parameters connected to the output when the encoder is used on its own (parameters its forward never uses
+    # are outside the claim); through the pipeline each distinct encoder must have a finite gradient on all of them (graph
+    # connectivity - a unit that happens to be dead for one initialisation is not a detached graph) and not all of them zero.
+    from kaira.models.image.yilmaz2023_deepjscc_noma import Yilmaz2023DeepJSCCNOMAModel as NM, Yilmaz2023DeepJSCCNOMAEncoder as NE, Yilmaz2023DeepJSCCNOMADecoder as ND
+    for D in (2, 3):
+        for shared_enc in (False, True):
+            for emb in (False, True):
+                try:
+                    reached_all, ref, shape_ok, bad = None, set(), True, []
+                    for attempt in range(3):
+                        torch.manual_seed(23 + ctx.seed + 97 * attempt)
+                        encs = [NE(N=8, M=4, in_ch=4 if emb else 3, csi_length=1) for _ in range(D)]
+                        decs = [ND(N=8, M=4, out_ch_per_device=3, csi_length=1, num_devices=1, shared_decoder=False) for _ in range(D)]
+                        B, H = 2, 16
+                        csi = torch.full((B, 1), 10.0)
+                        quiet(encs[0], torch.rand(B, 4 if emb else 3, H, H), csi).pow(2).sum().backward()
+                        ref |= {n for n, p_ in encs[0].named_parameters() if p_.grad is not None}
+                        encs[0].zero_grad(set_to_none=True)
+                        model = NM(channel=A.AWGNChannel(snr_db=10.0), power_constraint=AveragePowerConstraint(1.0), num_devices=D, M=0.5, latent_dim=4, shared_encoder=shared_enc, shared_decoder=False,
+                                   use_perfect_sic=False, use_device_embedding=emb, image_shape=(H, H), csi_length=1, encoder=encs[0] if shared_enc else encs, decoder=decs)
+                        x = [torch.rand(B, 3, H, H) for _ in range(D)]
+                        out = quiet(model, x, csi=csi)
+                        shape_ok = shape_ok and tuple(out.shape) == (B, D, 3, H, H)
+                        ((out - torch.stack(x, 1)) ** 2).mean().backward()
+                        distinct = list({id(e_): e_ for e_ in model.encoders}.values())
+                        got = [{n for n, p_ in e_.named_parameters() if p_.grad is not None and bool(torch.isfinite(p_.grad).all())} for e_ in distinct]
+                        dead = ["encoder[%d] (all gradients zero)" % i for i, e_ in enumerate(distinct) if sum(float(p_.grad.abs().sum()) for p_ in e_.parameters() if p_.grad is not None) == 0.0]
+                        nonfinite = [n for e_ in distinct for n, p_ in e_.named_parameters() if p_.grad is not None and not bool(torch.isfinite(p_.grad).all())]
+                        reached_all = got if reached_all is None or len(reached_all) != len(got) else [a_ | b_ for a_, b_ in zip(reached_all, got)]
+                        bad = ["encoder[%d].%s" % (i, n) for i, g_ in enumerate(reached_all) for n in sorted(ref - g_)] + nonfinite + dead
+                        if not bad:
+                            break
+                    ok = shape_ok and not bad and bool(ref)
+                    cfg = {"devices": D, "shared_encoder": shared_enc, "use_device_embedding": emb, "distinct_encoders": len(distinct), "parameters_without_gradient": bad[:6], "reference_parameters": len(ref)}
+                except Exception as ex:
+                    ok, cfg = False, {"devices": D, "shared_encoder": shared_enc, "use_device_embedding": emb, "error": "%s: %s" % (type(ex).__name__, str(ex)[:160])}
+                ops.append(Op("gray 0", "0", nontrivial=True, info={"site": "models:Yilmaz2023DeepJSCCNOMAModel.backward", "config": cfg}, prop_ok=ok))
+                ctx.count("end_to_end_noma")
     return ops
 
 
